@@ -1,8 +1,270 @@
 import Pose.Wire
-/-! Driver ops for C17. -/
-namespace PP.Driver
-open PP Wire
+import Pose.Model.Align
+/-!
+# Driver ops for C17 (svdtf / svdstf / ICP)
 
-def opsC17 : List (String × Handler) := []
+The SVD kernel is a contract parameter of the model; here it is instantiated by a one-sided Jacobi
+iteration over `BigF` whose output is **re-checked against the contract on every call**
+(`U Uᵀ = 1`, `Vh Vhᵀ = 1`, `U diag(S) Vh = M`, `S` sorted, non-negative): a violation is the reply
+`err contract:…` (infrastructure error in the harness, never a verdict).
+`det` is the 3×3 formula, the nearest neighbour is `Align.nnFirst` (first minimiser; its contract —
+it attains the minimum — is re-checked too, and the margin to the runner-up is reported so that the harness
+can tell a genuine disagreement from a near-tie).
+-/
+namespace PP.Driver
+open PP Wire Align
+
+namespace C17
+
+abbrev B := BigF
+
+instance : Inhabited (Vec3 B) := ⟨Vec3.zero⟩
+
+def v3 (l : List B) (o : Nat := 0) : Vec3 B := ⟨l.getD o default, l.getD (o+1) default, l.getD (o+2) default⟩
+def qt (l : List B) (o : Nat := 0) : Quat B :=
+  ⟨l.getD o default, l.getD (o+1) default, l.getD (o+2) default, l.getD (o+3) default⟩
+
+def two (n : Int) : B := ⟨1, n⟩
+
+/-! ## Jacobi SVD stand-in -/
+
+/-- rotate columns `p`,`q` of a matrix given by its three columns -/
+def rotCols (c s : B) (a b : Vec3 B) : Vec3 B × Vec3 B :=
+  ((a.smul c).sub (b.smul s), (a.smul s).add (b.smul c))
+
+structure JState where
+  a0 : Vec3 B
+  a1 : Vec3 B
+  a2 : Vec3 B
+  v0 : Vec3 B
+  v1 : Vec3 B
+  v2 : Vec3 B
+  moved : Bool
+
+def getA (s : JState) (i : Nat) : Vec3 B := match i with | 0 => s.a0 | 1 => s.a1 | _ => s.a2
+def getV (s : JState) (i : Nat) : Vec3 B := match i with | 0 => s.v0 | 1 => s.v1 | _ => s.v2
+def setAV (s : JState) (i : Nat) (a v : Vec3 B) : JState :=
+  match i with
+  | 0 => { s with a0 := a, v0 := v }
+  | 1 => { s with a1 := a, v1 := v }
+  | _ => { s with a2 := a, v2 := v }
+
+/-- one Hestenes rotation making columns `p`,`q` of `A` orthogonal -/
+def jrot (s : JState) (p q : Nat) : JState :=
+  let ap := getA s p; let aq := getA s q
+  let al := ap.dot ap; let be := aq.dot aq; let ga := ap.dot aq
+  -- already orthogonal to 2^-185 relative?
+  if BigF.le (ga * ga) (two (-370) * (al * be)) then s else
+  let ze := (be - al) / (two 1 * ga)
+  let sgn : B := if BigF.isNeg ze then BigF.neg BigF.one else BigF.one
+  let t := sgn / (BigF.abs ze + BigF.sqrt (BigF.one + ze * ze))
+  let c := BigF.one / BigF.sqrt (BigF.one + t * t)
+  let sn := c * t
+  let (ap', aq') := rotCols c sn ap aq
+  let (vp', vq') := rotCols c sn (getV s p) (getV s q)
+  { (setAV (setAV s p ap' vp') q aq' vq') with moved := true }
+
+def jsweeps : Nat → JState → JState
+  | 0, s => s
+  | n + 1, s =>
+    let s1 := jrot (jrot (jrot { s with moved := false } 0 1) 0 2) 1 2
+    if s1.moved then jsweeps n s1 else s1
+
+def swapIf (s : JState) (i j : Nat) : JState :=
+  let ai := getA s i; let aj := getA s j
+  if BigF.lt (ai.dot ai) (aj.dot aj) then
+    let vi := getV s i; let vj := getV s j
+    setAV (setAV s i aj vj) j ai vi
+  else s
+
+def normalize (v : Vec3 B) : Vec3 B := v.smul (BigF.one / v.norm)
+
+/-- some unit vector orthogonal to the unit vector `u` -/
+def anyOrth (u : Vec3 B) : Vec3 B :=
+  let ax := BigF.abs u.x; let ay := BigF.abs u.y; let az := BigF.abs u.z
+  let e : Vec3 B := if BigF.le ax ay && BigF.le ax az then Vec3.e0 else if BigF.le ay az then Vec3.e1 else Vec3.e2
+  normalize (e.sub (u.smul (e.dot u)))
+
+/-- Jacobi SVD of a 3×3 matrix: `M = U diag(S) Vh` -/
+def jacobiSVD (M : Mat3 B) : SVD3 B :=
+  let s0 : JState := ⟨M.c0, M.c1, M.c2, Vec3.e0, Vec3.e1, Vec3.e2, false⟩
+  let s := jsweeps 60 s0
+  let s := swapIf (swapIf (swapIf s 0 1) 1 2) 0 1
+  let n0 := s.a0.norm; let n1 := s.a1.norm; let n2 := s.a2.norm
+  let thr := two (-120) * n0
+  let V := Mat3.ofCols s.v0 s.v1 s.v2
+  if BigF.isZero n0 then ⟨Mat3.one, ⟨n0, n1, n2⟩, V.transpose⟩ else
+  let u0 := s.a0.smul (BigF.one / n0)
+  let u1 := if BigF.le n1 thr then anyOrth u0 else s.a1.smul (BigF.one / n1)
+  let u2c := Vec3.cross u0 u1
+  let u2 := if BigF.le n2 thr then u2c else s.a2.smul (BigF.one / n2)
+  ⟨Mat3.ofCols u0 u1 u2, ⟨n0, n1, n2⟩, V.transpose⟩
+
+def maxAbs (xs : List B) : B := xs.foldl (fun m x => if BigF.lt m (BigF.abs x) then BigF.abs x else m) BigF.zero
+
+/-- the SVD contract, numerically: returns `none` if satisfied to `2^-100` (relative to `‖M‖∞`) -/
+def svdContract (M : Mat3 B) (d : SVD3 B) : Option String :=
+  let tol := two (-100)
+  let eU := maxAbs ((d.U.mul d.U.transpose).sub Mat3.one).toList
+  let eV := maxAbs ((d.Vh.mul d.Vh.transpose).sub Mat3.one).toList
+  let rec_ := ((d.U.mul (diag3 d.S)).mul d.Vh).sub M
+  let eM := maxAbs rec_.toList
+  let nM := maxAbs M.toList
+  if BigF.lt tol eU then some "contract:U-not-orthogonal"
+  else if BigF.lt tol eV then some "contract:V-not-orthogonal"
+  else if BigF.lt (tol * nM) eM then some "contract:USVh-ne-M"
+  else if BigF.lt d.S.x d.S.y || BigF.lt d.S.y d.S.z || BigF.isNeg d.S.z then some "contract:S-not-sorted"
+  else none
+
+def points (xs : List B) (n : Nat) (o : Nat) : Cloud B := (List.range n).map fun i => v3 xs (o + 3 * i)
+
+def mkPairs (xs : List B) (n : Nat) (o : Nat) : Pairs B := (points xs n o).zip (points xs n (o + 3 * n))
+
+def detB (M : Mat3 B) : B := M.det
+
+def atolB : B := BigF.ofNat 1 / BigF.ofNat 100000
+
+/-- the SVD the model will ask for in `svdtf` (for the contract check) -/
+def svdtfM (ps : Pairs B) : Mat3 B := crossCov (centered ps)
+def svdstfH (ps : Pairs B) : Mat3 B := Mat3.smul (k 1 / k ps.length) (crossCov (centered ps))
+
+/-! ## nearest neighbour contract -/
+
+/-- squared margin between the best and the best *different* target point, relative to the squared extent -/
+def nnMargin (tgt : Cloud B) (p : Vec3 B) : B :=
+  let j := nnFirst tgt p
+  let best := tgt.getD j Vec3.zero
+  let d0 := (best.sub p).normSq
+  tgt.foldl (fun m q => if BigF.isZero (q.sub best).normSq then m else
+    let g := (q.sub p).normSq - d0
+    if BigF.lt g m then g else m) (BigF.ofNat 1000000 * (BigF.one + d0))
+
+def nnOk (tgt : Cloud B) (p : Vec3 B) : Bool :=
+  let j := nnFirst tgt p
+  j < tgt.length && tgt.all fun q => BigF.le ((tgt.getD j Vec3.zero).sub p).normSq (q.sub p).normSq
+
+structure IcpTrace where
+  cur : Cloud B
+  errs : List B      -- mean NN distance before each pass (oldest first)
+  sscd : List B      -- sum of squared NN distances before each pass, then after the last
+  margin : B
+  ok : Bool
+  svdBad : Bool
+
+def svdBad (ps : Pairs B) : Bool := (svdContract (svdtfM ps) (jacobiSVD (svdtfM ps))).isSome
+
+def icpTrace (align : Pairs B → SE3 B) (tgt : Cloud B) : Nat → IcpTrace → IcpTrace
+  | 0, t => { t with sscd := t.sscd ++ [sscd nnFirst tgt t.cur] }
+  | n + 1, t =>
+    let m := t.cur.foldl (fun m p => let g := nnMargin tgt p; if BigF.lt g m then g else m) t.margin
+    let ok := t.ok && t.cur.all (nnOk tgt)
+    let e := icpError nnFirst tgt t.cur
+    let s := sscd nnFirst tgt t.cur
+    let bad := t.svdBad || svdBad (matchNN nnFirst tgt t.cur)
+    icpTrace align tgt n ⟨icpStep align nnFirst tgt t.cur, t.errs ++ [e], t.sscd ++ [s], m, ok, bad⟩
+
+end C17
+
+open C17 in
+def opsC17 : List (String × Handler) := [
+  -- c17.svd  m00 … m22            → U(9) S(3) Vh(9)      (the stand-in alone, contract-checked)
+  ("c17.svd", numeric fun xs =>
+      let M : Mat3 B := ⟨v3 xs 0, v3 xs 3, v3 xs 6⟩
+      let d := jacobiSVD M
+      match svdContract M d with
+      | some e => .error e
+      | none => .ok (d.U.toList ++ d.S.toList ++ d.Vh.toList)),
+  -- c17.svdtf N  src(3N) tgt(3N)  → t(3) q(4) R(9) S(3) det(U Vh)(1) cost(1)
+  ("c17.svdtf", fun ts => do
+      match ts with
+      | n :: rest =>
+        let n ← nat n
+        let xs ← nums rest
+        if xs.length != 6 * n then throw "arity"
+        let ps := mkPairs xs n 0
+        let M := svdtfM ps
+        let d := jacobiSVD M
+        match svdContract M d with
+        | some e => throw e
+        | none =>
+          let svd := fun (_ : Mat3 B) => d
+          let Rt := svdtfMat svd detB ps
+          let X := svdtf svd detB atolB ps
+          let c := cost (SE3Act X) ps
+          return fmt (X.toList ++ Rt.1.toList ++ d.S.toList ++ [detB (d.U.mul d.Vh), c])
+      | _ => throw "arity"),
+  -- c17.svdstf withScale N src tgt → t(3) q(4) s(1) R(9) S(3) det(1) cost(1) scaleRaw(1) | err <ConvErr>
+  ("c17.svdstf", fun ts => do
+      match ts with
+      | ws :: n :: rest =>
+        let ws ← nat ws
+        let n ← nat n
+        let xs ← nums rest
+        if xs.length != 6 * n then throw "arity"
+        let ps := mkPairs xs n 0
+        let H := svdstfH ps
+        let d := jacobiSVD H
+        match svdContract H d with
+        | some e => throw e
+        | none =>
+          let svd := fun (_ : Mat3 B) => d
+          let r := svdstfMat svd detB (ws == 1) ps
+          match svdstf svd detB atolB atolB (ws == 1) ps with
+          | .error e => throw ("raise:" ++ e.name)
+          | .ok X =>
+            let c := cost (Sim3Act X) ps
+            return fmt (X.toList ++ r.2.1.toList ++ d.S.toList ++ [detB (d.U.mul d.Vh), c, r.1])
+      | _ => throw "arity"),
+  -- c17.cost7 N t(3) q(4) src tgt  → cost(1) R(9) normSq(1)     (exact cost of a given SE3 element)
+  ("c17.cost7", fun ts => do
+      match ts with
+      | n :: rest =>
+        let n ← nat n
+        let xs ← nums rest
+        if xs.length != 7 + 6 * n then throw "arity"
+        let X : SE3 B := ⟨v3 xs 0, qt xs 3⟩
+        let ps := mkPairs xs n 7
+        return fmt ([cost (SE3Act X) ps] ++ (SO3matrix X.q).toList ++ [X.q.normSq])
+      | _ => throw "arity"),
+  -- c17.cost8 N t(3) q(4) s(1) src tgt → cost(1) R(9) normSq(1)
+  ("c17.cost8", fun ts => do
+      match ts with
+      | n :: rest =>
+        let n ← nat n
+        let xs ← nums rest
+        if xs.length != 8 + 6 * n then throw "arity"
+        let X : Sim3 B := ⟨v3 xs 0, qt xs 3, xs.getD 7 default⟩
+        let ps := mkPairs xs n 8
+        return fmt ([cost (Sim3Act X) ps] ++ (SO3matrix X.q).toList ++ [X.q.normSq])
+      | _ => throw "arity"),
+  -- c17.icp passes hasInit Ns Nt [t q] src(3Ns) tgt(3Nt)
+  --   → t(3) q(4) margin(1) errs(passes) sscd(passes+1) sscdResult(1)
+  ("c17.icp", fun ts => do
+      match ts with
+      | passes :: hi :: ns :: nt :: rest =>
+        let passes ← nat passes
+        let hi ← nat hi
+        let ns ← nat ns
+        let nt ← nat nt
+        let xs ← nums rest
+        let o := if hi == 1 then 7 else 0
+        if xs.length != o + 3 * ns + 3 * nt then throw "arity"
+        let init : Option (SE3 B) := if hi == 1 then some ⟨v3 xs 0, qt xs 3⟩ else none
+        let src := points xs ns o
+        let tgt := points xs nt (o + 3 * ns)
+        -- the aligner: model svdtf with the contract-checked stand-in; a contract failure poisons the run
+        let align : Pairs B → SE3 B := fun ps => svdtf jacobiSVD detB atolB ps
+        let t0 : IcpTrace := ⟨icpStart init src, [], [], BigF.ofNat 1000000, true, false⟩
+        let tr := icpTrace align tgt passes t0
+        if !tr.ok then throw "contract:nn-not-argmin"
+        -- re-check the SVD contract on every alignment problem of the run
+        if tr.svdBad || svdBad (src.zip tr.cur) then throw "contract:svd"
+        let X := align (src.zip tr.cur)
+        let X' := icp align nnFirst init passes src tgt
+        if (X.toList.zip X'.toList).any (fun p => !(BigF.isZero (p.1 - p.2))) then throw "contract:icp-trace"
+        let res := sscd nnFirst tgt (src.map (SE3Act X))
+        return fmt (X.toList ++ [tr.margin] ++ tr.errs ++ tr.sscd ++ [res])
+      | _ => throw "arity")
+]
 
 end PP.Driver
